@@ -121,7 +121,7 @@ pub fn run_d(seed: u64, ntraces: usize, only: Option<u64>) {
         let users = vec![user_addr(4), user_addr(5), user_addr(6)]; let dest = user_addr(7);
         let tok = b"TOK-123456".to_vec(); let tok2 = b"OTH-654321".to_vec();
         let all: Vec<VMAddress> = [owner.clone(), operator.clone(), relayer.clone(), dest.clone()].into_iter().chain(users.iter().cloned()).collect();
-        for u in &all { w.add_user(u, 2_000_000_000_000_000_000); w.add_esdt(u, &tok, 1_000_000); w.add_esdt(u, &tok2, 1_000_000); }
+        for u in &all { w.add_user(u, 16_000_000_000_000_000_000); w.add_esdt(u, &tok, 1_000_000); w.add_esdt(u, &tok2, 1_000_000); w.add_esdt(u, b"EGLD-123456", 1_000_000); }
         let gw = sc_addr(0x10); let gas = sc_addr(0x12); let tmt = sc_addr(0x13); let its = sc_addr(0x14);
         let pool = Pool::new();
         let set = SSet { signers: vec![SignerE { pk: pool.pk(0), key: Some(0), weight: bn(1) }], threshold: bn(1), nonce: vec![7u8; 32] };
@@ -136,6 +136,8 @@ pub fn run_d(seed: u64, ntraces: usize, only: Option<u64>) {
         if hub_set { chains.push((b"axelar".to_vec(), b"axelar1hub".to_vec())); }
         chains.push((b"axelarnet".to_vec(), b"0xITSnet".to_vec()));       // a directly trusted chain whose name has the hub's name as a prefix
         chains.push((b"Fuji-C".to_vec(), b"hub".to_vec()));               // a hub-routed chain whose name has upper-case letters: it is named in the hub wrapper exactly as given
+        chains.push((b"avalanche-fuji-subnet-evm-devnet1".to_vec(), b"0xITSd1".to_vec()));      // two chains whose 33-byte names differ in the last byte only
+        chains.push((b"avalanche-fuji-subnet-evm-devnet2".to_vec(), b"0xITSd2".to_vec()));
         chains.push((b"twin".to_vec(), b"axelar1hub".to_vec()));          // a directly trusted chain whose peer address string equals the hub's: it still is not the hub chain
         // the service's own chain name: mixed case in every fourth trace (it is hashed into every token id exactly as given)
         let own_chain: Vec<u8> = if t % 4 == 3 { b"MultiversX-D1".to_vec() } else { b"multiversx".to_vec() };
@@ -151,7 +153,7 @@ pub fn run_d(seed: u64, ntraces: usize, only: Option<u64>) {
         let init = json!({"its": hx(its.as_bytes()), "gw": hx(gw.as_bytes()), "gas": hx(gas.as_bytes()), "tm_impl": hx(tmt.as_bytes()), "owner": hx(owner.as_bytes()),
             "operator": hx(operator.as_bytes()), "chain": hx(&own_chain), "trusted": chains.iter().map(|(c, a)| json!([hx(c), hx(a)])).collect::<Vec<_>>(),
             "gwnow": now, "retention": 2, "domain": hx(&domain), "gwdelay": 0, "gwop": hx(owner.as_bytes()), "signers": [hx(&set.encode(0))],
-            "tracked": tracked, "funds": all.iter().map(|u| json!([hx(u.as_bytes()), "2000000000000000000", [[hx(&tok), "1000000"], [hx(&tok2), "1000000"]]])).collect::<Vec<_>>(),
+            "tracked": tracked, "funds": all.iter().map(|u| json!([hx(u.as_bytes()), "16000000000000000000", [[hx(&tok), "1000000"], [hx(&tok2), "1000000"], [hx(b"EGLD-123456"), "1000000"]]])).collect::<Vec<_>>(),
             "res": st.json});
         let mut g = W { w, its: its.clone(), gw: gw.clone(), gas: gas.clone(), owner: owner.clone(), operator: operator.clone(), relayer: relayer.clone(), users: users.clone(), dest: dest.clone(),
             pool, tab: SigTab(vec![]), set, domain, now, steps: vec![], pend: vec![], next_id: 0, next_tm: 0, msg: 0, toks: vec![], paused: false, proposed: None, last_in: None };
@@ -214,7 +216,7 @@ pub fn run_d(seed: u64, ntraces: usize, only: Option<u64>) {
         }
         if d == 2 || d == 3 || d == 7 || d == 4 || d == 17 {
             // local deployment driven step by step: (2) two issuances in flight, (3) the service named as minter, (7) steps under pause, (4) no minter: the mint step repeated
-            let u = g.users[2].clone(); let salt = r.bytes(32); let supply = 1000u64;
+            let u = g.users[2].clone(); let salt = r.bytes(32); let supply = if d == 2 && (t / 18) % 2 == 1 { 1u64 << 63 } else { 1000u64 };      // every other (2)-trace: an initial supply of 2^63
             let minter = if d == 3 { g.its.to_vec() } else if d == 4 { vec![0u8; 32] } else { g.users[0].to_vec() };
             let dt = |g: &mut W, egld: u64| -> (bool, Vec<Vec<u8>>, Option<VMAddress>) {
                 g.its_tx("deployToken", &u, "deployInterchainToken", vec![salt.clone(), b"MyToken".to_vec(), b"MTK".to_vec(), vec![18], big(supply), minter.clone()], egld, &[],
@@ -229,7 +231,7 @@ pub fn run_d(seed: u64, ntraces: usize, only: Option<u64>) {
             else if d == 3 { script.extend([47u64, 46, 23, 46, 3]); }  // steps called with different arguments: (1000, minter) then (0, no minter)
             else if d == 17 { script.extend([27u64, 45, 3, 3, 26]); }     // (17): the second issuance FAILS after the first was recorded: the recorded token stays, a retry is refused
             else { script.extend([3u64, 23, 3, 3]); }
-            if d == 2 { script.extend([81u64, 22, 40, 50, 43, 41, 40, 67, 41, 69]); script.extend([40u64, 51, 67, 53, 69, 41, 79]); script.extend([40u64, 83, 19, 84, 41, 40, 41]); }   // an approval is REPLACED by a second one (the first destination minter is refused, the second accepted);   // ... then: an approval is replaced while its chain is no longer trusted (refused), the chain is trusted again, the replacement is not usable, the original is   // the minter approves a remote deployment, hands the role on, then the stale approval is used                   // step 3, second issuance callback, step 3 again (twice)
+            if d == 2 { script.extend([81u64, 22, 87, 88, 22, 89, 22, 40, 50, 43, 41, 40, 67, 41, 69]); script.extend([40u64, 51, 67, 53, 69, 41, 79]); script.extend([40u64, 83, 19, 84, 41, 40, 41]); }   // an approval is REPLACED by a second one (the first destination minter is refused, the second accepted);   // ... then: an approval is replaced while its chain is no longer trusted (refused), the chain is trusted again, the replacement is not usable, the original is   // the minter approves a remote deployment, hands the role on, then the stale approval is used                   // step 3, second issuance callback, step 3 again (twice)
         }
         if d == 1 || d == 6 || d >= 10 {
             // (1) an inbound link / deploy message for a token id that is already bound; (6) hub-wrapped inbound messages while paused
@@ -259,7 +261,7 @@ pub fn run_d(seed: u64, ntraces: usize, only: Option<u64>) {
                 else if d == 10 {   // inbound battery: every routing variant for a transfer without data, the main ones for transfers with data and deployments
                     for v in 0..21u64 { script.push(1600 + v); }
                     script.extend([1700u64, 20, 20, 1702, 1708, 1709, 1711, 1713, 1714, 1716, 1808, 1800, 1802, 1809, 1811, 1813, 1815, 1816, 1818, 1718, 195, 198, 2300, 2305, 2316, 2309, 2302, 2314]);
-                    script.extend([2300u64, 2300, 2300, 2300, 2300, 2300]);      // six consecutive inbound links from the peer: one of every requested manager type (2, 3, 4, 1, 0, 5 in some rotation)
+                    script.extend([2300u64, 2300, 2300, 2300, 2300, 2300, 85]);      // six consecutive inbound links from the peer: one of every requested manager type (2, 3, 4, 1, 0, 5 in some rotation)
                 }
                 else if d == 11 {   // the service is paused while a transfer with data is in flight: failed and successful delivery, direct and hub-wrapped
                     script.extend([1700u64, 10, 21, 20, 10, 1702, 10, 20, 20, 10, 1700, 21, 10, 20, 10, 1700, 1700, 21, 24, 20, 20]);
@@ -284,7 +286,7 @@ pub fn run_d(seed: u64, ntraces: usize, only: Option<u64>) {
                     for sh in [9u64, 8, 0, 1, 2] { for ch in 0..5u64 { script.push(3000 + sh * 10 + ch); } }
                     for sh in [9u64, 8, 1] { for ch in 0..2u64 { script.push(3500 + sh * 10 + ch); } }
                     script.extend([3095u64, 3595, 3085, 3585, 3596, 3290, 3291]);
-                    script.extend([82u64, 58, 59, 60, 61]);      // a custom token linked to: the hub chain itself (refused), a hub-routed chain, a direct chain   // empty destination address (transfer / call), call data in the metadata
+                    script.extend([82u64, 86, 58, 59, 60, 61]);      // a custom token linked to: the hub chain itself (refused), a hub-routed chain, a direct chain   // empty destination address (transfer / call), call data in the metadata
                     script.extend([51u64, 3080, 3580, 52, 3081, 3581]);
                     script.extend([71u64, 3082, 3582, 59]);      // the hub chain registered as hub-routed: still refused as a destination (transfer, call, linkToken)      // ethereum removed -> no transfer to it; then the hub removed -> none to a hub-routed chain
                 }
@@ -292,6 +294,8 @@ pub fn run_d(seed: u64, ntraces: usize, only: Option<u64>) {
                     script.extend([193u64, 199, 45, 194, 23, 194, 45, 196]);
                 }
                 else if d == 16 {   // the nominated minter already holds minter and operator roles when the hand-over of the third step runs
+                    { let u2 = g.users[2].clone();      // first: a metadata registration carrying 1e19 wei of cross-chain gas (more than 2^63); its lookup succeeds
+                      g.its_tx("registerMetadata", &u2, "registerTokenMetadata", vec![tok.clone()], 10_000_000_000_000_000_000, &[], json!({"token": hx(&tok)})); script.push(22); }
                     script.extend([62u64, 63, 20, 64, 23, 65, 65, 45]);
                     script.extend([62u64, 75, 23, 75, 75]);      // a zero-supply deployment with a minter: after the issuance every further call with EGLD attached is refused
                 }
@@ -306,7 +310,7 @@ pub fn run_d(seed: u64, ntraces: usize, only: Option<u64>) {
                     script.extend([22u64, 56, 80, 1700, 51, 1600, 25, 24, 53, 197, 1700, 25, 54, 1600, 24, 53, 197, 1702, 52, 25, 24, 55, 197, 70, 26, 26, 57, 26, 26, 77, 78, 26]);
                 }
                 else {              // d == 13: message-type words outside the known range, direct and hub-wrapped
-                    for i in 0..11u64 { script.push(2000 + i); script.push(2100 + i); }
+                    for i in 0..11u64 { script.push(2000 + i); script.push(2100 + i); } script.extend([2111u64, 2112]);
                 }
             }
         }
@@ -374,6 +378,29 @@ pub fn run_d(seed: u64, ntraces: usize, only: Option<u64>) {
                 g.its_tx("setTrusted", &ow, "setTrustedAddress", vec![b"axelar".to_vec(), b"hub".to_vec()], 0, &[], json!({"chain": hx(b"axelar"), "a": hx(b"hub")})); continue; }
             if a == 76 { // the account that accepted the service's operatorship hands it back to the proposer
                 if let Some((from, to)) = g.proposed.clone() { let (ok, _, _) = g.its_tx("transferOp", &to, "transferOperatorship", vec![from.to_vec()], 0, &[], json!({"a": hx(from.as_bytes())})); if ok { g.operator = from; } }
+                continue; }
+            if a == 85 { // an approved transfer of amount ZERO naming a token id nobody registered: refused like any unknown id, the approval stays
+                g.msg += 1; let id = format!("msg-{}", g.msg).into_bytes(); let tidz = r.bytes(32);
+                let payload = transfer_payload(&tidz, b"0xsender", g.users[0].as_bytes(), 0, b"");
+                let m = Msg { chain: b"ethereum".to_vec(), id: id.clone(), src: b"0xITSeth".to_vec(), contract: g.its.to_vec(), ph: keccak(&payload) }; g.gw_approve(&m);
+                g.its_tx("execute", &g.relayer.clone(), "execute", vec![b"ethereum".to_vec(), id.clone(), b"0xITSeth".to_vec(), payload.clone()], 0, &[],
+                    json!({"chain": hx(b"ethereum"), "id": hx(&id), "src": hx(b"0xITSeth"), "payload": hx(&payload), "ph": hx(&keccak(&payload)), "label": "in6/zero-unknown"}));
+                continue; }
+            if a == 86 { // an outbound transfer whose gas is paid in an ESDT with the ticker EGLD (EGLD-123456): an ordinary ESDT, forwarded to the gas service as such
+                if let Some(tk) = g.toks.first() { let (tid, ttok) = (tk.id.clone(), tk.token.clone().unwrap_or(tok.clone())); let u = g.users[0].clone();
+                    let e = vec![(ttok.clone(), 0u64, bn(9)), (b"EGLD-123456".to_vec(), 0u64, bn(4))];
+                    g.its_tx("transfer", &u, "interchainTransfer", vec![tid.clone(), b"ethereum".to_vec(), b"0xdestination".to_vec(), vec![], big(4)], 0, &e,
+                        json!({"token_id": hx(&tid), "dchain": hx(b"ethereum"), "daddr": hx(b"0xdestination"), "metadata": "", "gas": "4"})); }
+                continue; }
+            if a == 87 || a == 88 || a == 89 { // 87: the minter approves a remote deployment to ...devnet1; 88: the deployer uses it for ...devnet2 (refused); 89: for ...devnet1
+                if let Some(tk) = g.toks.iter().rev().find(|t| t.kind == "native" && t.minter.len() == 32) {
+                    let (deployer, salt, minter) = (tk.deployer.clone(), tk.salt.clone(), tk.minter.clone()); let dm = b"0xremoteminter".to_vec();
+                    let dchain = if a == 88 { b"avalanche-fuji-subnet-evm-devnet2".to_vec() } else { b"avalanche-fuji-subnet-evm-devnet1".to_vec() };
+                    if a == 87 { let caller = VMAddress::new(minter.clone().try_into().unwrap());
+                        g.its_tx("approveRemote", &caller, "approveDeployRemoteInterchainToken", vec![deployer.to_vec(), salt.clone(), dchain.clone(), dm.clone()], 0, &[],
+                            json!({"deployer": hx(deployer.as_bytes()), "salt": hx(&salt), "dchain": hx(&dchain), "dminter": hx(&dm)})); }
+                    else { g.its_tx("deployRemote", &deployer, "deployRemoteInterchainTokenWithMinter", vec![salt.clone(), minter.clone(), dchain.clone(), dm.clone()], 1000, &[],
+                            json!({"salt": hx(&salt), "minter": hx(&minter), "dchain": hx(&dchain), "dminter": Some(hx(&dm))})); } }
                 continue; }
             if a == 82 { // an outbound transfer to the hub-routed chain with upper-case letters in its name (the wrapper's destination chain is compared byte for byte)
                 if let Some(tk) = g.toks.first() { let (tid, ttok) = (tk.id.clone(), tk.token.clone().unwrap_or(tok.clone())); let u = g.users[0].clone();
@@ -513,7 +540,7 @@ pub fn run_d(seed: u64, ntraces: usize, only: Option<u64>) {
                     };
                     // an amount word above 2^128 (legal uint256): one transfer in ten, and always for the directed code 198
                     let inner = if (a == 6 || a == 7) && ((fvar.is_none() && r.chance(1, 10)) || a_raw == 198) { let mut p = inner; p[128 + 15] |= 1; p } else { inner };
-                    let inner = if let Some(i) = ftype { let mut p = inner.clone(); for b in p[0..32].iter_mut() { *b = 0; }
+                    let inner = if let Some(i) = ftype.filter(|i| *i < 11) { let mut p = inner.clone(); for b in p[0..32].iter_mut() { *b = 0; }
                         match i { 0 => p[24] = 0x80, 1 => p[23] = 1, 2 => p[0] = 0x80, 3 => p[31] = 6, 4 => p[31] = 7, 5 => p[27] = 1,
                                   // a KNOWN type in the low bytes under non-zero high bytes: 2^64 + 1, 2^255 + 5, 2^128 + 4, 2^192 + 0, 2^63 + 1 -- none of them is a message type
                                   6 => { p[23] = 1; p[31] = 1 }, 7 => { p[0] = 0x80; p[31] = 5 }, 8 => { p[15] = 1; p[31] = 4 }, 9 => { p[7] = 1 }, _ => { p[24] = 0x80; p[31] = 1 } }; p } else { inner };
@@ -539,6 +566,8 @@ pub fn run_d(seed: u64, ntraces: usize, only: Option<u64>) {
                         19 => (b"twin".to_vec(), b"axelar1hub".to_vec(), inner.clone()),                                  // the same chain speaking for itself: processed as direct
                         _ => (b"ethereum".to_vec(), b"0xITSeth".to_vec(), inner.clone()),
                     };
+                    // message-type codes 11 / 12: the OUTER word of the hub wrapper is 2^64 + 4 / 2^255 + 4 -- not a wrapper
+                    let payload = match ftype { Some(11) if payload.len() >= 32 => { let mut p = payload; p[23] = 1; p }, Some(12) if payload.len() >= 32 => { let mut p = payload; p[0] = 0x80; p }, _ => payload };
                     let approve = variant != 8;
                     // variant 20: the approval is addressed to another contract
                     if approve { let m = Msg { chain: chain.clone(), id: id.clone(), src: src.clone(), contract: if variant == 20 { g.users[2].to_vec() } else { g.its.to_vec() }, ph: keccak(&payload) }; g.gw_approve(&m); }
